@@ -48,10 +48,7 @@ impl c6::Callback for RefCb {
             burn();
             return Err(());
         }
-        match c6::Callback::send(&mut self.inner, buffer) {
-            Ok(()) => Ok(()),
-            Err(e) => match e {},
-        }
+        c6::Callback::send(&mut self.inner, buffer)
     }
     fn time(&mut self) -> Timestamp {
         c6::Callback::time(&mut self.inner)
